@@ -553,7 +553,11 @@ func genTiming(lim limits, tier string, r *rng.R) []scenario {
 			add(st, "pp-trickle", "pphdr", false, action{Op: "trickle", K: 12, D: 40})
 			if tier == "thorough" {
 				for i := 0; i < 8; i++ {
-					add(st, fmt.Sprintf("pp-rand-%d", i), "pphdr", i%2 == 1, action{Op: "sleep", D: r.Intn(lim.PP / 2)}, action{Op: "pp", K: 1 + r.Intn(len(ppV1)-2)})
+					hdrLen := len(ppV1)
+					if i%2 == 1 {
+						hdrLen = len(ppV2)
+					}
+					add(st, fmt.Sprintf("pp-rand-%d", i), "pphdr", i%2 == 1, action{Op: "sleep", D: r.Intn(lim.PP / 2)}, action{Op: "pp", K: 1 + r.Intn(hdrLen-2)})
 				}
 			}
 			pre = append(pre, action{Op: "pp", K: -1})
@@ -596,9 +600,18 @@ func genTiming(lim limits, tier string, r *rng.R) []scenario {
 			add(st, "mitm-idle", "idle", false, with(action{Op: "connect"}, action{Op: "mtls", K: -1})...)
 			add(st, "mitm-head", "head", false, with(action{Op: "connect"}, action{Op: "mtls", K: -1}, action{Op: "sleep", D: 100}, action{Op: "head", K: 12})...)
 		}
+		// seeded stall points: a random wait inside the idle limit, then a random prefix of the head
+		nr := 2
 		if tier == "thorough" {
-			for i := 0; i < 10; i++ {
-				add(st, fmt.Sprintf("rand-head-%d", i), "head", false, with(action{Op: "sleep", D: r.Intn(lim.Idle - 50)}, action{Op: "head", K: 1 + r.Intn(60)})...)
+			nr = 12
+		}
+		for i := 0; i < nr; i++ {
+			add(st, fmt.Sprintf("rand-head-%d", i), "head", false, with(action{Op: "sleep", D: r.Intn(lim.Idle - 50)}, action{Op: "head", K: 1 + r.Intn(60)})...)
+		}
+		if tier == "thorough" {
+			for i := 0; i < 6; i++ {
+				add(st, fmt.Sprintf("rand-between-%d", i), "head", false, with(action{Op: "head", K: -1}, action{Op: "resp"},
+					action{Op: "sleep", D: r.Intn(lim.Idle - 50)}, action{Op: "head", K: 1 + r.Intn(60)})...)
 			}
 		}
 	}
@@ -881,10 +894,12 @@ func main() {
 		tsc = genTiming(lim, *tier, r)
 		asc = genAccept(lim, *tier)
 		if *tier == "thorough" {
-			lim2 := limits{Idle: 300 + r.Intn(200), Rhdr: 200 + r.Intn(150), Read: 0, TLS: 250 + r.Intn(150), PP: 150 + r.Intn(150)}
-			for _, s := range genTiming(lim2, *tier, r) {
-				s.Name += "#2"
-				tsc = append(tsc, s)
+			for k := 2; k <= 4; k++ {
+				lim2 := limits{Idle: 300 + r.Intn(200), Rhdr: 200 + r.Intn(150), Read: 0, TLS: 250 + r.Intn(150), PP: 150 + r.Intn(150)}
+				for _, s := range genTiming(lim2, *tier, r) {
+					s.Name += fmt.Sprintf("#%d", k)
+					tsc = append(tsc, s)
+				}
 			}
 		}
 	}
